@@ -7,7 +7,7 @@ INFO = {
     "assumptions": ['recv/send callbacks return a positive count <= requested or a negative tr_rtvals code'],
 }
 MANIFEST = {
-    "text": "Bounded model checking with ALL of CBMC's memory-safety checks on (pointer, bounds, pointer primitives, division, signed overflow, undefined shifts) of the real rtr_receive_pdu on an arbitrary 48/96-byte stream with the unscaled 3248-byte buffer, transport faults at every call, arbitrary version / first-PDU flag / state -- once as shipped (-DNDEBUG) and once with rtrlib's asserts as obligations; of the real tr_recv_all / tr_send_all for arbitrary chunkings and faults; and of decoded hostile prefix PDUs (length 0, 33..255, max < min, any flags) applied through the real rtr_update_pfx_table to the real trie followed by an arbitrary validation.",
+    "text": "Bounded model checking with ALL of CBMC's memory-safety checks on (pointer, bounds, pointer primitives, division, signed overflow, undefined shifts) of the real rtr_receive_pdu on an arbitrary 48/96-byte stream with the unscaled 3248-byte buffer, transport faults at every call, arbitrary version / first-PDU flag / state -- once as shipped (-DNDEBUG) and once with rtrlib's asserts as obligations; of the real tr_recv_all / tr_send_all for arbitrary chunkings and faults; of the lengths rtr_receive_pdu asks the Error Report sender to encapsulate (contract stub in place of the static rtr_send_error_pdu: <= bytes received of the offending PDU, <= RTR_MAX_PDU_LEN, inside the object passed); and of decoded hostile prefix PDUs (length 0, 33..255, max < min, any flags) applied through the real rtr_update_pfx_table to the real trie followed by an arbitrary validation.",
     "note": "Bounded: one PDU per stream of <=48 (quick) / 96 (thorough) bytes; PDU sequences are covered PDU-wise through the contract composition (C03). --pointer-overflow-check is off (its failures never reproduce under sanitizers). Trusted: transport contract 'returns >0 or a negative code'.",
     "technique": 'CBMC with standard memory-safety checks on real packets.c/transport.c over an arbitrary byte stream',
 }
